@@ -36,8 +36,8 @@ typedef struct fiber_bounded_channel {
 static inline fiber_bounded_channel_t* fiber_bounded_channel_create(
     uint32_t power_of_2_size, fiber_signal_t* signal) {
   assert(power_of_2_size && power_of_2_size < 32);
-  const uint32_t size = 1 << power_of_2_size;
-  const uint32_t required_size =
+  const uint32_t size = (uint32_t)1 << power_of_2_size;
+  const size_t required_size =
       sizeof(fiber_bounded_channel_t) + size * sizeof(void*);
   fiber_bounded_channel_t* const channel =
       (fiber_bounded_channel_t*)calloc(1, required_size);
